@@ -444,7 +444,17 @@ def main(argv):
     mod = importlib.import_module(a.prop)
     try:
         mod.run(ctx)
-    except BuildError as e:
+    except Exception as e:
+        if not isinstance(e, BuildError):
+            import traceback
+            tb = traceback.format_exc()
+            ctx.log("INTERNAL ERROR in check module:\n" + tb)
+            ctx.violation({"kind": "unproved", "theorem": "check-internal-error"},
+                          "the check itself failed (%s: %s); the property is not shown to hold on this tree"
+                          % (type(e).__name__, str(e)[:200]),
+                          {"theorem_or_correspondence": "check module raised an exception", "traceback": tb[-3000:]})
+            rc = ctx.finish()
+            sys.exit(rc)
         ctx.log("BUILD ERROR:", e)
         ctx.violation({"kind": "unproved", "theorem": "build"},
                       "the working tree or a harness does not build: %s" % str(e)[:300],
